@@ -55,12 +55,14 @@ type stubLog struct {
 	branch  *vlib.Branch
 	size    uint64
 	cpGets  int
+	served  uint64 // size of the checkpoint handed out last
 	badReqs []string
 }
 
 type stubLogs struct {
 	mu   sync.Mutex
 	logs []*stubLog
+	down bool // answer 503 to everything (the logs are unreachable)
 }
 
 var tilesPathRE = regexp.MustCompile(`^tile/(\d+)/((?:x\d{3}/)*\d{3})(?:\.p/(\d+))?$`)
@@ -68,6 +70,10 @@ var tilesPathRE = regexp.MustCompile(`^tile/(\d+)/((?:x\d{3}/)*\d{3})(?:\.p/(\d+
 func (s *stubLogs) ServeHTTP(w http.ResponseWriter, r *http.Request) {
 	s.mu.Lock()
 	defer s.mu.Unlock()
+	if s.down {
+		http.Error(w, "unreachable", http.StatusServiceUnavailable)
+		return
+	}
 	parts := strings.SplitN(strings.TrimPrefix(r.URL.Path, "/"), "/", 2)
 	idx, err := strconv.Atoi(strings.TrimPrefix(parts[0], "log"))
 	if err != nil || idx < 0 || idx >= len(s.logs) || len(parts) != 2 {
@@ -86,6 +92,7 @@ func (s *stubLogs) ServeHTTP(w http.ResponseWriter, r *http.Request) {
 	case "sumdb":
 		if p == "latest" {
 			l.cpGets++
+			l.served = l.size
 			text := string(tlog.FormatTree(tlog.Tree{N: int64(l.size), Hash: tlog.Hash(root)}))
 			_, _ = w.Write(vlib.Note(text, l.key.SigLine(text)))
 			return
@@ -109,6 +116,7 @@ func (s *stubLogs) ServeHTTP(w http.ResponseWriter, r *http.Request) {
 	case "tiles":
 		if p == "checkpoint" {
 			l.cpGets++
+			l.served = l.size
 			text := vlib.CheckpointText(l.origin, l.size, root[:], nil)
 			_, _ = w.Write(vlib.Note(text, l.key.SigLine(text)))
 			return
